@@ -276,11 +276,11 @@ def runMonitor (prop : String) (ops obs : Array String) : IO Unit := do
             if !(Spec.C03.claimInTime pre op accepted) then fail "claim-after-expiry"; fails := fails + 1
             if !(Spec.C03.queueFutureOk post) then fail "stale-queue-entry"; fails := fails + 1
         else
-          if !(Spec.C04.escrowEqB post) then
-            if Spec.C04.escrowEqModSelfB post then
-              out.putStrLn s!"mon {prop} FAIL clause=escrow-eq line={i+1} class=F-htlc-self-recipient"
-            else fail "escrow-eq"
-            fails := fails + 1
+          if !(Spec.C04.escrowEqB post) then fail "escrow-eq"; fails := fails + 1
+          match op with
+          | .create _ to _ _ _ _ _ =>
+            if accepted && to == escrow then fail "escrow-as-recipient-accepted"; fails := fails + 1
+          | _ => pure ()
           if !(Spec.C04.countersB post) then fail "counters"; fails := fails + 1
           let isSet := match op with | .setParams _ _ => true | _ => false
           if !isSet && Spec.C04.limitsB pre && !(Spec.C04.limitsB post) then fail "limits"; fails := fails + 1
